@@ -112,8 +112,18 @@ def runOps (h : Heap) (vars : List Loc) : List Json → Except String (List Json
             | some y => (mutReach h' x).any (fun c => (mutReach h' y).contains c)
             | none => false)
       | _ => []
+    -- frozen units: BaseUnits objects / dicts held before the operation and written by it (never, by
+    -- C07_units_frozen; reported so that the harness can compare with the real cached fields)
+    let buWritten := idx.filter (fun i => match vars[i]? with
+      | some x => match h.q x with
+        | some qc => match h.b qc.bu with
+          | some bc => decide (h'.b qc.bu ≠ some bc) || decide (h'.d bc.dict ≠ h.d bc.dict)
+          | none => false
+        | none => false
+      | none => false)
     let out := Json.mkObj [("res", res), ("snap", jarr (snapOf h') vars'),
-      ("changed", jarr jnat changed), ("allowed", jarr jnat allowed), ("shared", jarr jnat shared)]
+      ("changed", jarr jnat changed), ("allowed", jarr jnat allowed), ("shared", jarr jnat shared),
+      ("bu_written", jarr jnat buWritten)]
     let rest ← runOps h' vars' js
     pure (out :: rest)
 
